@@ -118,7 +118,12 @@ Definition unmarshal_stream (s : pstream) : option ures :=
           match marshal_value v with
           | (Some t, _) =>
               if json_valid t then
-                if p_see TEOF st2 then Some (UOk t) else Some UMore
+                if p_see TEOF st2 then
+                  match p_errs st2 with
+                  | [] => Some (UOk t)
+                  | e :: _ => Some (UErr e)
+                  end
+                else Some UMore
               else Some (UJsonErr t)
           | (None, _) => Some (UErr EEncode)
           end
